@@ -587,6 +587,16 @@ void kv_dm(float** dm, int rows, int cols, int pair)
         kv_write("Dm", &b);
 }
 
+void kv_anchors(const int* anchors, int n, int numseq)
+{
+        struct kv_buf b;
+        kb_init(&b);
+        kb_kint(&b, "n", n);
+        kb_kint(&b, "numseq", numseq);
+        kb_ints(&b, "a", anchors, n);
+        kv_write("Anchors", &b);
+}
+
 void kv_km_node(uint32_t id, int num_samples, int leaf)
 {
         struct kv_buf b;
@@ -622,6 +632,13 @@ void kv_km_split(const int* samples, int num_samples, int seed_pick, const int* 
         kb_kint(&b, "nl", nl);
         kb_kint(&b, "nr", nr);
         kb_kint(&b, "dg", kv_km_result_digest(sl, nl, sr, nr, score));
+        if(kv_level >= 2 && num_samples <= 256){
+                /* members of the two clusters, for the fixed-point check of the k-means model */
+                kb_ints(&b, "s", samples, num_samples);
+                kb_ints(&b, "sl", sl, nl);
+                kb_ints(&b, "sr", sr, nr);
+                kb_kint(&b, "degenerate", score == 0.0f);
+        }
         kv_write("KmSplit", &b);
 }
 
